@@ -180,6 +180,12 @@ def constructors(ctx):
             ok = okstate and ls.n is T.app('len', init) and okorder and not ls.exits
         ctx.check('C09.ctor', A, 'chain-order', ok, expected='chains[c] is built from %s[c], for every c, collected in order' % param, found=found, sp=b['sp'],
                   why='row c of the output belongs to the c-th initial state')
+    # "the multi-chain NUTS runner returns exactly what its chains return individually": a chain built directly with the same
+    # arguments is the reference, so the runner's constructor must hand them on unchanged (decided for C04 as well)
+    from . import C04
+    got = ctx.borrow(C04.runner_ctor, lambda oid: oid.startswith('C04.fwd.'))
+    if not got:
+        ctx.unknown('C09.ctor', 'NUTS::new', 'arguments', why='argument-forwarding obligations of the NUTS constructor could not be instantiated')
     A = 'HMC::new'
     b = ctx.anchor(A, name='new', self_head='hmc::HMC', container='inherent')
     if b is None:
